@@ -1,5 +1,6 @@
 """Correspondence families: each returns a list of protocol operations (see Driver.lean)."""
 import re
+import random
 import json
 from gen import Vocab, shuffled, FREE_POOL, JUNK, SearchGen, universe
 
@@ -207,6 +208,12 @@ def _mk_templates(rng):
                     parts.append("{%s}" % k)
             return "/".join(parts)
         leafname = rng.choice([bt + sep + keys[-1], bt + sep + "file", bt + sep + bt, bt + sep + keys[-1]])
+        # type-name suffixes that contain the character of the separator ('<basetype>__movie_file',
+        # '<basetype>__cache_node' exist in the shipped configuration); chosen without a further random draw
+        if leafname == bt + sep + "file" and len(keys) % 2 == 0:
+            leafname = bt + sep + "movie_file"
+        elif leafname == bt + sep + bt and len(keys) % 3 == 0:
+            leafname = bt + sep + "cache_node"
         entries = [(leafname, tpl(keys))]
         # explicit intermediates at arbitrary levels
         for lvl in range(1, len(keys)):
@@ -901,6 +908,65 @@ def fam_tree(v, n, model):
                 if rng.random() < 0.5:
                     op["attributes"] = rng.sample(["comment", "frames", "sid", "nope"], rng.randint(1, 3))
             ops.append(op)
+        ops += link_block(v, wid, leaves, cfg, default, model, random.Random("links/%s/%d" % (n, u)))
+    return ops
+
+
+def link_block(v, wid, leaves, cfg, default, model, rng):
+    """symbolic links in the tree, then reads only (a link to a directory READS as a copy of it, a dangling link or a
+    link to a file as a file; a directory moved to another volume with a link left in its place changes nothing):
+    the asset-level folder of one entity is relocated, a sibling name links to it, a dangling link and a link to a
+    file stand where another version's file would be; searches around all of them"""
+    from gen import re_is_free
+    ops = []
+    cands = [(l, f) for l, f in leaves if len(f) >= 4 and any(re_is_free(dict(v.tdict[l])[k]) for k, _ in f[2:-1])]
+    if not cands:
+        return ops
+    label, fields = cands[0]
+    keys = [k for k, _ in fields]
+    i = [j for j in range(2, len(fields) - 1) if re_is_free(dict(v.tdict[label])[keys[j]])][0]
+    name = fields[i][1]
+    if not name or any(ch in name for ch in "[]?*>,\\{}") or name in (".", ".."):
+        return ops
+    pre = "/".join(val for _, val in fields[:i + 1])
+    gold = "/".join([val for _, val in fields[:i]] + [name + "_gold"])
+    # the leaf with another leaf value / version, as a dangling link and as a link to a file
+    variants = []
+    for tag in ("dng", "lnk"):
+        f2 = list(fields)
+        f2[i] = (keys[i], name + tag)
+        variants.append(f2)
+    ask = [{"op": "sid_call", "from": {"s": s}, "m": "path", "config": cfg} for s in
+           [pre, gold] + ["/".join(val for _, val in f2) for f2 in variants]]
+    ans = [a.get("ok") for a in model(ask)]
+    if not all(isinstance(a, str) and a.startswith("/R/") for a in ans):
+        return ops
+    p_pre, p_gold, p_dng, p_lnk = ans
+    ops.append({"op": "world", "w": wid, "do": "plant", "path": p_pre, "kind": "relocate"})
+    ops.append({"op": "world", "w": wid, "do": "plant", "path": p_gold, "kind": "linkdir", "target": p_pre})
+    ops.append({"op": "world", "w": wid, "do": "plant", "path": p_dng, "kind": "dangling"})
+    ops.append({"op": "world", "w": wid, "do": "plant", "path": p_lnk, "kind": "linkfile"})
+    ops.append({"op": "world", "w": wid, "do": "dump"})
+    up = "/".join(val for _, val in fields[:i])
+    segs = [val for _, val in fields]
+    searches = [up + "/*", up + "/*/*", pre, gold, pre + "/*", gold + "/*", up + "/*?%s=%s" % (keys[i], name + "_gold"),
+                up + "/*?%s=%s" % (keys[i], name), "/".join(segs[:i] + ["*"] + segs[i + 1:]), "/".join(segs[:i] + ["*"] * (len(segs) - i)),
+                "/".join(segs[:i] + [">"] + ["*"] * (len(segs) - i - 1))]
+    for f2 in variants:
+        s2 = "/".join(val for _, val in f2)
+        searches += [s2, "/".join([val for _, val in f2[:-1]] + ["*"]), "/".join(segs[:i] + ["*"] + [val for _, val in f2[i + 1:]]),
+                     "/".join([val for _, val in f2[:-1]]) + "/*?%s=%s" % (keys[-1], f2[-1][1])]
+    for s in searches:
+        ops.append({"op": "world", "w": wid, "do": "find_paths", "s": s, "config": cfg})
+        if cfg == default:
+            ops.append({"op": "world", "w": wid, "do": "find_all", "s": s})
+    for sid in [up, pre, gold] + ["/".join(val for _, val in f2) for f2 in variants]:
+        for do in ("sid_exists", "children", "siblings"):
+            ops.append({"op": "world", "w": wid, "do": do, "sid": sid})
+        ops.append({"op": "world", "w": wid, "do": "get_data", "sid": sid, "config": cfg, "enc": "str"})
+    ops.append({"op": "world", "w": wid, "do": "getter_paths", "s": up + "/*", "config": cfg, "enc": "uri"})
+    ops.append({"op": "world", "w": wid, "do": "getter_paths", "s": "/".join([val for _, val in variants[0][:-1]] + ["*"]), "config": cfg, "enc": "str",
+                "attributes": ["comment", "sid"]})
     return ops
 
 
